@@ -131,6 +131,11 @@ def compare(B, label, tree, sexpr, assume_extra=(), opts=None, want_modes=True, 
     """compile `tree` with the real code (M), run the emitted program (S) and the specification on one symbolic
     file record, and decide equivalence with z3.  Returns list of findings: dict(klass, text, model_info)."""
     findings = []
+    if meaning is None:
+        # the meaning of an expression without action is that of "( expr ) -a -print" (C09 decides that rule separately)
+        meaning = tree
+        if not findsem.has_action(tree):
+            meaning = Adt("Expression", "Operator", [BoxV(Adt("Operator", "And", [tree, Adt("Expression", "Action", [Adt("Action", "DefaultPrint")])]), "Rc")])
     r = compile_tree(B, tree, opts)
     for g, v in r.alts:
         if isinstance(v, Panic):
